@@ -54,7 +54,7 @@ func family(l int) []string {
 }
 
 type Op struct {
-	K    string        `json:"k"` // w d reopen fit
+	K    string        `json:"k"`               // w d reopen fit
 	D    int           `json:"delta,omitempty"` // fit: string value sized so that the header message area becomes 255+D bytes
 	Name int           `json:"name"`
 	A    *hist.AttrVal `json:"a,omitempty"`
@@ -62,15 +62,19 @@ type Op struct {
 
 type Case struct {
 	SB      int    `json:"sb"`
-	Obj     string `json:"obj"`     // dataset | group
-	Chunked bool   `json:"chunked"` // dataset layout
-	Others  int    `json:"others"`  // objects created after the target (target is then not the last allocation)
-	Collide bool   `json:"collide"` // name pool includes the colliding pairs
+	Obj     string `json:"obj"`              // dataset | group
+	Chunked bool   `json:"chunked"`          // dataset layout
+	Others  int    `json:"others"`           // objects created after the target (target is then not the last allocation)
+	Collide bool   `json:"collide"`          // name pool includes the colliding pairs
 	Family  int    `json:"family,omitempty"` // L > 0: the first L+1 pool names are a base name of length L and its L one-byte variants
 	Ops     []Op   `json:"ops"`
 }
 
 func genVal(t *rapid.T) *hist.AttrVal {
+	if rapid.IntRange(0, 39).Draw(t, "huge") == 0 {
+		// larger than a dense attribute heap object can be (64 KiB): refused or stored, never at the cost of what is there
+		return &hist.AttrVal{Kind: "[]f64", N: 9000, Seed: rapid.IntRange(0, 99).Draw(t, "seed")}
+	}
 	k := rapid.SampledFrom([]string{"i8", "i16", "i32", "i64", "u8", "u16", "u32", "u64", "f32", "f64", "str", "str", "[]i32", "[]i64", "[]f32", "[]f64",
 		"i32", "f64", "str"}).Draw(t, "kind")
 	a := &hist.AttrVal{Kind: k, Seed: rapid.IntRange(0, 1<<16).Draw(t, "seed")}
